@@ -23,6 +23,25 @@ After every call - including calls that fail (bad key / value, missing key,
 unusable bound) - (1) no node known to the cache or reachable from the root has
 _p_state == 2 / _p_sticky, (2) result or exception class equal the twin's,
 (3) after mutators and at the end the contents equal the twin's.
+
+Two directed scenario classes on trees of >= 3 levels (integer and object keys):
+  ranges : the committed tree with (between-all) every node a ghost, (between-node /
+           between-leaf) exactly ONE interior node - the root included - / one leaf
+           a ghost and everything else loaded; then every range query: keys /
+           values / items / iterkeys / itervalues / iteritems with min and max
+           taken at every key (so at the first key of every leaf and of every
+           interior subtree), between keys and beyond both ends, excludemin /
+           excludemax each True / False, and minKey(b) / maxKey(b) for the same
+           bounds; a lazily evaluated result is also consumed after the sweep.
+           The result must be that of the sorted reference (and of the twin).
+  split  : object keys; every insertion of an absent key that splits a leaf, an
+           interior node or the root, with the cache swept inside the n-th key
+           comparison of the call, every n, the sweep evicting exactly one node:
+           the root / an interior node / the leaf on the path of the insertion
+           (split-node, split-leaf), a node off the path (split-off-node,
+           split-off-leaf), or every node (split-all).  Afterwards: nothing
+           pinned, result, _check(), contents by iteration AND by t[k] / k in t /
+           get(k) of every key, and the same again after commit + full sweep.
 """
 import argparse
 import random
@@ -198,7 +217,399 @@ def run_history(cls, is_set, h, mode, arg, rng, cases):
     return n, None, cases
 
 
+# ===================================================================== directed scenarios
+def lab(k):
+    return k.v if type(k) is K else k
+
+
+def maker(fam):
+    return K if fam[0] == "O" else (lambda v: v)
+
+
+def fill(t, is_set, labels, mk, val):
+    for v in labels:
+        t.add(mk(v)) if is_set else t.__setitem__(mk(v), val)
+    return t
+
+
+def tree_nodes(t):
+    """[(node, 'interior' | 'leaf', depth)] in descent order, the root first (loads every node)."""
+    out = []
+
+    def rec(node, depth):
+        out.append((node, "interior", depth))
+        st = node.__getstate__()
+        if st is None or len(st) == 1:
+            return
+        for kid in st[0][0::2]:
+            if type(kid) is type(t):
+                rec(kid, depth + 1)
+            else:
+                kid._p_activate()
+                out.append((kid, "leaf", depth + 1))
+    rec(t, 0)
+    return out
+
+
+def height(t):
+    ns = tree_nodes(t)
+    return 1 + max(d for _, _, d in ns) if len(ns) > 1 else 1
+
+
+def sticky(conn):
+    """Nodes known to the cache that are pinned (reads _p_state only: activates nothing)."""
+    return ["%s oid=%d" % (type(o).__name__, stubdb.u64(o._p_oid)) for o in conn.nodes()
+            if o._p_state == 2 or getattr(o, "_p_sticky", False)]
+
+
+EV = lambda n: [2 * i + 2 for i in range(n)]
+MIX = lambda n: EV(n)[::2] + EV(n)[1::2]
+# (name, labels in insertion order) per node sizes.  Sizes 2/2 are not used with the storage model: a node
+# whose only child is a leaf inlines that leaf's state, which the leaf chain stores a second time.
+RANGE_FILLS = {(2, 3): [("asc9", EV(9)), ("desc12", EV(12)[::-1]), ("mix13", MIX(13)), ("asc14", EV(14))],
+               (3, 3): [("asc13", EV(13)), ("desc14", EV(14)[::-1]), ("mix19", MIX(19))]}
+SPLIT_FILLS = {(2, 3): [("desc6", EV(6)[::-1]), ("desc10", EV(10)[::-1]), ("desc12", EV(12)[::-1]), ("desc14", EV(14)[::-1]),
+                        ("mix13", MIX(13)), ("asc13", EV(13))],
+               (3, 3): [("desc9", EV(9)[::-1]), ("desc11", EV(11)[::-1]), ("desc13", EV(13)[::-1]), ("desc15", EV(15)[::-1]),
+                        ("mix19", MIX(19)), ("mix23", MIX(23))]}
+
+
+def directed_jobs(quick):
+    for fam in H.fams():
+        if fam == "fs":
+            continue
+        for kind in ("BTree", "TreeSet"):
+            for impl in ("c", "py"):
+                for sizes in ((2, 3), (3, 3)):
+                    for i in range(len(RANGE_FILLS[sizes]) - (1 if quick else 0)):
+                        yield ("ranges", fam, kind, impl, sizes, i)
+                    if fam[0] == "O":
+                        for i in range(len(SPLIT_FILLS[sizes])):
+                            yield ("split", fam, kind, impl, sizes, i)
+
+
+def expected_range(ref, is_set, meth, lo, hi, exlo, exhi, val):
+    ks = list(ref)
+    if lo is not None:
+        ks = [k for k in ks if (k > lo if exlo else k >= lo)]
+    elif exlo:
+        ks = ks[1:]
+    if hi is not None:
+        ks = [k for k in ks if (k < hi if exhi else k <= hi)]
+    elif exhi:
+        ks = ks[:-1]
+    if meth in ("keys", "iterkeys"):
+        return ks
+    if meth in ("values", "itervalues"):
+        return [val] * len(ks)
+    return [(k, val) for k in ks]
+
+
+def norm(r):
+    if r[0] != "ret":
+        return r
+    x = r[1]
+    if isinstance(x, list):
+        return ("ret", [(lab(a[0]), a[1]) if isinstance(a, tuple) else lab(a) for a in x])
+    return ("ret", lab(x))
+
+
+def ranges_job(j):
+    """-> evals, number of distinct non-trivial cases, failures"""
+    _, fam, kind, impl, sizes, fi = j
+    is_set = kind == "TreeSet"
+    cls = H.get_class(fam, kind, impl, *sizes)
+    mk, val = maker(fam), H.values_of(fam)[0]
+    meths = [m for m in (("keys", "iterkeys") if is_set else ("keys", "values", "items", "iterkeys", "itervalues", "iteritems"))
+             if hasattr(cls, m)]
+    name, labels = RANGE_FILLS[sizes][fi]
+    probe = fill(cls(), is_set, labels, mk, val)
+    if height(probe) < 3:
+        raise RuntimeError("fill %s at sizes %s gives fewer than 3 levels" % (name, sizes))
+    cases = list(range(-1, len(tree_nodes(probe))))        # -1: every node a ghost; i: only node #i
+
+    def one(case, note):
+        st = stubdb.Storage()
+        conn = st.open()
+        t = fill(cls(), is_set, labels, mk, val)
+        conn.add(t)
+        conn.commit()
+        u = fill(cls(), is_set, labels, mk, val)
+        ref = sorted(labels)
+        nodes = tree_nodes(t)
+        bounds = [None] + list(range(ref[0] - 1, ref[-1] + 2))        # at, between, beyond
+        idx = {b: i for i, b in enumerate(bounds)}
+        places = [("between-all", None, 0)] if case < 0 else [
+            ("between-node" if nodes[case][1] == "interior" else "between-leaf", nodes[case][0], case)]
+        evals, ncases, fails, count, ghosts = 0, 0, [], {}, [0]
+
+        def place(p):
+            for o, _, _ in nodes:
+                o._p_activate()
+            if p[1] is None:
+                conn.sweep("minimize" if evals % 2 else "deactivate")
+            else:
+                p[1]._p_deactivate()
+            ghosts[0] = sum(o._p_state == -1 for o, _, _ in nodes)
+
+        def check(p, op, r, want, twin):
+            nonlocal evals, ncases
+            evals += 1
+            pins = sticky(conn)
+            clause = text = None
+            if pins:
+                clause, text = "pinned", "still pinned: %s" % ", ".join(pins[:4])
+            elif norm(r) != want and norm(twin) == want:
+                clause, text = "result", "gave %r, sorted reference and unevicted twin %r" % (norm(r), want)
+            if clause is None:
+                ncases += ghosts[0] == (len(nodes) if p[1] is None else 1)     # counted when the eviction really happened
+                return
+            key = (p[0], clause, op[1] if op[0] == "range" else op[0])
+            count[key] = count.get(key, 0) + 1
+            if count[key] <= 2:
+                fails.append((key, "%s %s with %s a ghost: call %r %s" % (
+                    name, labels, "every node" if p[1] is None else "only node #%d (%s, in descent order)" % (p[2], type(p[1]).__name__),
+                    op, text), {"fill": labels, "ghost": "all" if p[1] is None else p[2], "op": [repr(x) for x in op]}))
+
+        def kw_of(lo, hi, exlo, exhi):
+            kw = {}
+            if lo is not None:
+                kw["min"] = mk(lo)
+            if hi is not None:
+                kw["max"] = mk(hi)
+            if exlo:
+                kw["excludemin"] = True
+            if exhi:
+                kw["excludemax"] = True
+            return tuple(sorted(kw.items(), key=lambda x: x[0]))
+
+        for p in places:
+            pi, whole = p[2], p[1] is None
+            note("%s ghost=%s" % (name, "all" if whole else p[2]))
+            qi = 0
+            for lo in bounds:
+                for hi in bounds:
+                    # one ghost: single bounds, and pairs at most 2 apart; all ghosts: every pair
+                    if not whole and lo is not None and hi is not None and abs(idx[lo] - idx[hi]) > 2:
+                        continue
+                    for exlo in (False, True):
+                        for exhi in (False, True):
+                            qi += 1
+                            for meth in (meths if whole else [meths[(qi + pi) % len(meths)]]):
+                                op = ("range", meth, kw_of(lo, hi, exlo, exhi))
+                                want = ("ret", expected_range(ref, is_set, meth, lo, hi, exlo, exhi, val))
+                                place(p)
+                                check(p, op, apply(t, op), want, apply(u, op))
+                                if len(fails) >= 12:
+                                    return {"evals": evals, "ncases": ncases, "fails": fails}
+                            if whole and (lo is None or hi is None or abs(idx[lo] - idx[hi]) <= 1):
+                                # the lazy result is made first, everything is evicted, then it is consumed
+                                meth = meths[qi % len(meths)]
+                                op = ("range", meth, kw_of(lo, hi, exlo, exhi))
+                                for o, _, _ in nodes:
+                                    o._p_activate()
+                                try:
+                                    lazy = getattr(t, meth)(**dict(op[2]))
+                                    conn.sweep("minimize")
+                                    ghosts[0] = sum(o._p_state == -1 for o, _, _ in nodes)
+                                    r = ("ret", list(lazy))
+                                    del lazy
+                                except Exception as e:
+                                    r = ("exc", type(e).__name__)
+                                want = ("ret", expected_range(ref, is_set, meth, lo, hi, exlo, exhi, val))
+                                check(p, ("range", meth + "-lazy", op[2]), r, want, apply(u, op))
+            for b in bounds[1:]:
+                for name_ in ("minKey", "maxKey"):
+                    op = (name_, mk(b))
+                    ok = [k for k in ref if (k >= b if name_ == "minKey" else k <= b)]
+                    want = ("ret", (ok[0] if name_ == "minKey" else ok[-1])) if ok else ("exc", "ValueError")
+                    place(p)
+                    check(p, op, apply(t, op), want, apply(u, op))
+        return {"evals": evals, "ncases": ncases, "fails": fails}
+
+    return collect(j, cases, H.guarded_cases(one, cases, timeout=60), lambda c: "range")
+
+
+def collect(j, cases, results, opname):
+    _, fam, kind, impl, sizes = j[:5]
+    evals, ncases, failures = 0, 0, []
+    tag = "%s%s%s sizes=%s" % (fam, kind, "Py" if impl == "py" else "", sizes)
+    for c, r in zip(cases, results):
+        if r[0] == "skipped":
+            continue
+        if r[0] == "crash":
+            evals += 1
+            clause = "hang" if r[1] == 14 else "crash"
+            failures.append(Failure(key="evict:%s:%s:%s:%s:%s" % (impl, kind, j[0], clause, opname(c)),
+                                    desc="%s %s: the process %s (%s)" % (tag, j[0], "did not finish in time" if r[1] == 14 else
+                                                                         "died with signal %d" % r[1], r[2]),
+                                    repro={"family": fam, "kind": kind, "impl": impl, "sizes": sizes, "case": repr(c), "at": r[2]}))
+            continue
+        r = r[1]
+        evals += r["evals"]
+        ncases += r["ncases"]
+        for (mode, clause, op), text, repro in r["fails"]:
+            key = "evict:%s:%s:%s:%s:%s" % (impl, kind, mode, clause, op)
+            if sum(f.key == key for f in failures) >= 2:
+                continue
+            failures.append(Failure(key=key, desc="%s %s" % (tag, text[:600]),
+                                    repro=dict(repro, family=fam, kind=kind, impl=impl, sizes=sizes, mode=mode)))
+    return evals, ncases, failures
+
+
+def split_job(j):
+    """Insertions that split a leaf / an interior node / the root, with one node (or all) evicted inside the
+    n-th comparison.  -> evals, number of distinct non-trivial cases, failures"""
+    _, fam, kind, impl, sizes, fi = j
+    quick = H.tier() == "quick"
+    is_set = kind == "TreeSet"
+    cls = H.get_class(fam, kind, impl, *sizes)
+    val, val2 = H.values_of(fam)
+    fills = [SPLIT_FILLS[sizes][fi]]
+    opnames = ("add", "supdate") if is_set else ("setitem", "setdefault")
+
+    def census(t):
+        ns = tree_nodes(t)
+        return (sum(r == "leaf" for _, r, _ in ns), sum(r == "interior" for _, r, _ in ns), height(t))
+
+    cases, classes = [], {}
+    for name, labels in fills:
+        base = census(fill(cls(), is_set, labels, K, val))
+        for x in range(min(labels) - 1, max(labels) + 2, 2):
+            after = census(fill(fill(cls(), is_set, labels, K, val), is_set, [x], K, val))
+            effect = ("root-split" if after[2] > base[2] else "interior-split" if after[1] > base[1] else
+                      "leaf-split" if after[0] > base[0] else None)
+            if effect is None:
+                continue
+            classes[effect] = classes.get(effect, 0) + 1
+            for opn in opnames:
+                cases.append((name, labels, x, opn, effect))
+    if quick:           # at most 3 insertions per (fill, effect), spread over the positions
+        kept, seen = [], {}
+        for c in cases:
+            k = (c[0], c[4], c[3])
+            seen.setdefault(k, []).append(c)
+        for k, cs in seen.items():
+            kept += [cs[0], cs[len(cs) // 2], cs[-1]] if len(cs) > 3 else cs
+        cases = [c for c in cases if any(c is k for k in kept)]
+
+    def one(case, note):
+        name, labels, x, opn, effect = case
+        st0 = stubdb.Storage()
+        c0 = st0.open()
+        t0 = fill(cls(), is_set, labels, K, val)
+        c0.add(t0)
+        c0.commit()
+        root = t0._p_oid
+        u = fill(cls(), is_set, labels, K, val)
+        op = {"add": ("add", K(x)), "supdate": ("supdate", (K(x),)), "setitem": ("setitem", K(x), val2),
+              "setdefault": ("setdefault", K(x), val2)}[opn]
+        want_r = apply(u, op)
+        want = H.contents(u, is_set)
+        # the nodes, in descent order, and which of them the insertion passes through
+        onpath, n0 = set(), tree_nodes(t0)
+        node = t0
+        while True:
+            onpath.add([i for i, (o, _, _) in enumerate(n0) if o is node][0])
+            if type(node) is not type(t0):
+                break
+            stt = node.__getstate__()
+            if len(stt) == 1:
+                break
+            kids, seps = stt[0][0::2], stt[0][1::2]
+            node = kids[sum(1 for sp in seps if lab(sp) <= x)]
+        # (modes of their own: on the unchanged tree both implementations pass this scenario, so nothing here
+        #  is the recorded "no pin in the Python implementation" finding, which shows on one-leaf trees)
+        targets = [("split-all", None)]
+        for i, (o, role, _) in enumerate(n0):
+            targets.append((("split-" if i in onpath else "split-off-") + ("node" if role == "interior" else "leaf"), i))
+        evals, ncases, fails, count = 0, 0, [], {}
+        for mode, ti in targets:
+            n = 0
+            while n < 200:
+                n += 1
+                note("%s insert %d by %s, %s evicted at comparison %d" % (name, x, opn, "all" if ti is None else "node #%d" % ti, n))
+                conn = st0.fork().open()
+                t = conn.get(root)
+                nodes = tree_nodes(t)              # (loads everything)
+                target = None if ti is None else nodes[ti][0]
+                Sweeper.arm(conn, n, "minimize" if ti is None else "deactivate", None if ti is None else (lambda o: o is target))
+                fired = Sweeper.fired
+                try:
+                    r = apply(t, op)
+                finally:
+                    Sweeper.conn = None
+                evals += 1
+                if Sweeper.fired == fired:      # fewer than n comparisons
+                    break
+                bad = None
+                pins = pinned(conn, t)
+                if pins:
+                    bad = ("pinned", "still pinned: %s" % ", ".join(pins[:4]))
+                elif not H.same_result(r, want_r):
+                    bad = ("result", "gave %r, unevicted twin %r" % (r, want_r))
+                if not bad:
+                    bad = inspect(t, is_set, want, "")
+                if not bad:
+                    try:
+                        conn.commit()
+                        conn.sweep("minimize")
+                    except Exception as e:
+                        bad = ("commit", "commit + sweep raised %s: %s" % (type(e).__name__, e))
+                if not bad:
+                    bad = inspect(t, is_set, want, " after commit + full sweep")
+                    if bad:
+                        bad = ("reload-" + bad[0], bad[1])
+                if not bad:
+                    ncases += 1
+                    continue
+                key = (mode, bad[0], opn)
+                count[key] = count.get(key, 0) + 1
+                if count[key] <= 2:
+                    fails.append((key, "%s %s, %s of absent key %d (%s), %s evicted inside comparison #%d: %s" % (
+                        name, labels, opn, x, effect, "every node" if ti is None else "node #%d (%s%s, in descent order)" % (
+                            ti, n0[ti][1], ", on the path" if ti in onpath else ""), n, bad[1]),
+                        {"fill": labels, "insert": x, "op": opn, "effect": effect, "evict": "all" if ti is None else ti, "n": n}))
+                if count[key] >= 4:
+                    break               # this (node, clause) is established; next node
+        return {"evals": evals, "ncases": ncases, "fails": fails, "classes": effect}
+
+    ev_, nc_, fl_ = collect(j, cases, H.guarded_cases(one, cases, timeout=60), lambda c: c[3])
+    return ev_, nc_, fl_, classes
+
+
+def inspect(t, is_set, want, when):
+    """_check(), contents by iteration, then every key by t[k] / in / get (fresh key objects). -> (clause, text) | None"""
+    try:
+        t._check()
+    except Exception as e:
+        return "check", "_check()%s raised %s: %s" % (when, type(e).__name__, e)
+    try:
+        got = H.contents(t, is_set)
+    except Exception as e:
+        return "contents", "iteration%s raised %s: %s" % (when, type(e).__name__, e)
+    if got != want:
+        return "contents", "contents by iteration%s %r, unevicted twin %r" % (when, got, want)
+    try:
+        if len(t) != len(want):
+            return "contents", "len()%s is %d, unevicted twin %d" % (when, len(t), len(want))
+        for x in want:
+            k = K(lab(x if is_set else x[0]))
+            if k not in t or not t.has_key(k):
+                return "lookup", "key %r is yielded by iteration but not found%s" % (k, when)
+            if not is_set and (t[k] != x[1] or t.get(k) != x[1]):
+                return "lookup", "t[%r]%s is %r / get %r, unevicted twin %r" % (k, when, t[k], t.get(k), x[1])
+    except Exception as e:
+        return "lookup", "looking up every key%s raised %s: %s" % (when, type(e).__name__, e)
+    return None
+
+
+
 def job(j):
+    if j[0] == "ranges":
+        return ranges_job(j) + ({},)
+    if j[0] == "split":
+        return split_job(j)
     fam, kind, impl, sizes, mode = j
     quick = H.tier() == "quick"
     is_set, is_tree = kind in ("Set", "TreeSet"), kind in ("BTree", "TreeSet")
@@ -246,8 +657,8 @@ def job(j):
                                 ("commit before every call; sweep at comparison #%s of every call (0 = all)" % arg),
                        "history": [[repr(x) for x in o] for o in h[:i + 1]]}))
             if len(failures) >= 8:
-                return evals, cases, failures
-    return evals, cases, failures
+                return evals, cases, failures, {}
+    return evals, cases, failures, {}
 
 
 def main():
@@ -276,17 +687,41 @@ def main():
                 for sizes in ([(2, 3), (3, 3)] if kind in ("BTree", "TreeSet") else [None]):
                     for mode in ("between", "inside-all", "inside-leaf", "inside-node") if fam[0] == "O" else ("between",):
                         jobs.append((fam, kind, impl, sizes, mode))
-    cases = set()
-    for n, c, fails in H.run_parallel(job, jobs):
+    jobs += list(directed_jobs(quick))
+    cases, directed, classes = set(), 0, {}
+    for n, c, fails, cl in H.run_parallel(job, jobs):
         s.evaluations += n
-        cases |= c
+        if isinstance(c, int):
+            directed += c
+        else:
+            cases |= c
+        for k, v in cl.items():
+            classes[k] = classes.get(k, 0) + v
         s.failures += fails
-    s.distinct_nontrivial = len(cases)
+    s.bound += ("; directed, node sizes (2,3),(3,3), BTree and TreeSet, both implementations: ranges (integer and object keys): "
+                "trees of 3-4 levels %s, for each: every node a ghost / exactly one node (each interior node, the root, each leaf) "
+                "a ghost; all ghosts: every method x every (min, max) in {omitted, every integer from first key - 1 to last key "
+                "+ 1}^2 x excludemin x excludemax, plus a lazily made result consumed after the sweep; one ghost: single bounds "
+                "and pairs at most 2 positions apart, methods in rotation; minKey(b), maxKey(b) for every bound; split (object "
+                "keys): trees %s, every insertion (%s) of an absent key that splits (quick tier: first / middle / last per tree "
+                "and effect; measured effects: %s), x evicted node in {each node of the tree, all} x every comparison index n" % (
+                    {k: [n for n, _ in v] for k, v in RANGE_FILLS.items()}, {k: [n for n, _ in v] for k, v in SPLIT_FILLS.items()},
+                    "setitem, setdefault / add, update", ", ".join("%s %d" % kv for kv in sorted(classes.items()))))
+    s.rule += ("; directed scenarios: case = (tree, ghost placement, query) resp. (tree, insertion, evicted node, n) with all checks; "
+               "every such case is distinct by construction and counted when the eviction really happened")
+    s.distinct_nontrivial = len(cases) + directed
     s.samples = [{"family": "OO", "kind": "BTree", "impl": "c", "sizes": [2, 3], "mode": "inside, n=2",
                   "history": "t[K(0)]='a'; t[K(1)]='a'; t[K(2)]='a'; commit; t[K(3)]='a' with cache.minimize() inside the "
                              "2nd comparison; then no node sticky, result and contents equal the twin's"},
                  {"family": "II", "kind": "BTree", "impl": "c", "sizes": [2, 3], "mode": "between",
-                  "history": "t[0]=1; commit; sweep; t.minKey('x') -> TypeError; no node sticky afterwards"}]
+                  "history": "t[0]=1; commit; sweep; t.minKey('x') -> TypeError; no node sticky afterwards"},
+                 {"family": "II", "kind": "BTree", "impl": "c", "sizes": [2, 3], "mode": "between-node",
+                  "history": "keys 2,4,..,18 inserted ascending (3 levels); commit; every node loaded, then the first interior node "
+                             "below the root ghostified; t.keys(max=8, excludemax=True) == [2, 4, 6]; nothing sticky"},
+                 {"family": "OO", "kind": "BTree", "impl": "py", "sizes": [2, 3], "mode": "split-node",
+                  "history": "keys K(12),K(10),..,K(2) inserted descending; commit; t[K(1)]='b' (splits the first leaf) with the "
+                             "root ghostified inside comparison #1; then _check(), items(), t[k] / k in t / get(k) of all 7 keys "
+                             "equal the twin's, also after commit + cache.minimize()"}]
     write_standin(a.out, s)
 
 
